@@ -343,6 +343,14 @@ def check_once(model, rep):
             any(g.kind == 'isnone' and not g.pol and g.key[0] == 'motor_control' for g in rp.guards)
         tags = [classify(rm, ev) for ev in events]
         ctrl = [i for i, t in enumerate(tags) if 'control' in t]
+        for i_ in ctrl:
+            owners = sorted({c[0] for c in events[i_].calls if c[1] == 'apply_rules'})
+            if owners and owners != ['motor_control'] and ('owner', owners[0]) not in seen:
+                seen.add(('owner', owners[0]))
+                rep.violation('C14.once', 'Solver.run:controller-applied',
+                              f'the controller whose rules are applied is `{owners[0]}`, not the `motor_control` handed to this call of run(): a continued '
+                              f'run (or a second solver) that brings another controller - or none - is governed by a remembered one',
+                              f'{mod}:{events[i_].lineno}')
         if not has_ctrl:
             continue
         n_ctrl += 1
@@ -352,6 +360,10 @@ def check_once(model, rep):
                               f'control must not be skipped, e.g. while the powertrain is locked)')
         else:
             line = events[ctrl[0]].lineno
+            owners = sorted({c[0] for c in events[ctrl[0]].calls if c[1] == 'apply_rules'})
+            if owners and owners != ['motor_control']:
+                ok, why = False, (f'the controller whose rules are applied is `{owners[0]}`, not the `motor_control` handed to this call of run(): '
+                                  f'a continued run (or a second solver) that brings another controller - or none - is governed by a remembered one')
             motor = [i for i, t in enumerate(tags) if 'motor' in t]
             rec = [i for i, t in enumerate(tags) if 'record' in t]
             if motor and not all(ctrl[0] < x for x in motor):
